@@ -642,3 +642,42 @@ func (g *PlanGen) Fill() *ref.Plan {
 	}
 	return g.P
 }
+
+// PadPlanToDataSize appends records of unknown messages until the plan's
+// record area is exactly target bytes long. It reports false if the plan is
+// already longer than target-40.
+func PadPlanToDataSize(p *ref.Plan, rng *Rand, target int) bool {
+	cur := len(p.DataBytes())
+	// three filler definitions on slots 13-15: records of 201, 3 and 2 bytes
+	defs := []ref.Record{
+		{IsDef: true, Local: 13, Global: 0xFF01, Fields: []ref.FieldDef{{Num: 1, Size: 200, Base: 0x0D}}},
+		{IsDef: true, Local: 14, Global: 0xFF02, Fields: []ref.FieldDef{{Num: 1, Size: 2, Base: 0x84}}},
+		{IsDef: true, Local: 15, Global: 0xFF03, Fields: []ref.FieldDef{{Num: 1, Size: 1, Base: 0x02}}},
+	}
+	need := 0
+	for i := range defs {
+		need += len(ref.RecordBytes(&defs[i]))
+	}
+	if cur+need+4 > target {
+		return false
+	}
+	p.Records = append(p.Records, defs...)
+	rem := target - cur - need
+	for rem >= 201+4 {
+		p.Records = append(p.Records, ref.Record{Local: 13, Data: [][]byte{rng.Bytes(200)}})
+		rem -= 201
+	}
+	for rem > 0 {
+		switch {
+		case rem == 2 || rem == 4 || rem%3 != 0 && rem >= 2:
+			p.Records = append(p.Records, ref.Record{Local: 15, Data: [][]byte{rng.Bytes(1)}})
+			rem -= 2
+		case rem >= 3:
+			p.Records = append(p.Records, ref.Record{Local: 14, Data: [][]byte{rng.Bytes(2)}})
+			rem -= 3
+		default: // rem == 1 cannot happen: 2s and 3s reach every value >= 2
+			return false
+		}
+	}
+	return len(p.DataBytes()) == target
+}
